@@ -3,6 +3,9 @@ package harness
 import (
 	"fmt"
 	"strings"
+	"time"
+
+	"google.golang.org/grpc/metadata"
 )
 
 // ---- MSG oracle ---------------------------------------------------------------------
@@ -188,6 +191,151 @@ func c01Scenarios(tier string) []*Scenario {
 				})
 			}
 		}
+	}
+	scs = append(scs, c01M2(tier)...)
+	scs = append(scs, c01M3(tier)...)
+	scs = append(scs, c01M4(tier)...)
+	return scs
+}
+
+// M2: two and three concurrent RPCs; this is where cross-delivery and chunk interleaving
+// would show.
+func c01M2(tier string) []*Scenario {
+	var scs []*Scenario
+	bound := 1
+	if tier == "thorough" {
+		bound = 2
+	}
+	type combo struct {
+		name string
+		wls  []Workload
+	}
+	combos := []combo{
+		{"B+B", []Workload{StdWorkload("r1", 1, "Bidi", []int{16385, 3}, []int{65537}), StdWorkload("r2", 2, "Bidi", []int{65537}, []int{16385, 3})}},
+		{"B+CS", []Workload{StdWorkload("r1", 1, "Bidi", []int{16385}, []int{16385}), StdWorkload("r2", 2, "ClientStream", []int{65537, 3}, []int{3})}},
+		{"U+SS+B", []Workload{StdWorkload("r1", 1, "Unary", []int{16385}, []int{16385}), StdWorkload("r2", 2, "ServerStream", []int{3}, []int{65537, 3}), StdWorkload("r3", 3, "Bidi", []int{3, 16385}, []int{16385})}},
+	}
+	for _, cfg := range []TunCfg{{}, {ServerNoFC: true}, {Reverse: true}, {Cap: 1}} {
+		for _, cb := range combos {
+			cfg, cb := cfg, cb
+			var ids []string
+			for _, wl := range cb.wls {
+				ids = append(ids, wl.Call.ID)
+			}
+			scs = append(scs, &Scenario{
+				Name: fmt.Sprintf("c01/m2/%s/%s", cfg, cb.name), Prop: "C01",
+				Desc: fmt.Sprintf("concurrent RPCs %s over a %s tunnel, all schedules with <= %d deviations at carrier/application granularity", cb.name, cfg, bound),
+				Opt:  Options{Level: "io", Bound: bound},
+				Run:  func(w *World) { RunWorkloads(w, cfg, cb.wls) },
+				Check: func(w *World, x *Exec) []Violation {
+					vs := NoHang(x, "C01")
+					vs = append(vs, msgOracle(w, "C01", ids)...)
+					for _, wl := range cb.wls {
+						vs = append(vs, completeOK(w, "C01", wl)...)
+					}
+					return vs
+				},
+			})
+		}
+	}
+	return scs
+}
+
+// M3: termination. The RPC is cancelled, its deadline expires or the tunnel is torn down
+// at every quiescent point of the run; whatever each side received must still be a prefix
+// of what the other side submitted.
+func c01M3(tier string) []*Scenario {
+	var scs []*Scenario
+	bound := 1
+	dev := onlyFaults
+	if tier == "thorough" {
+		bound = 2
+		dev = faultThenAny
+	}
+	mk := func(shape string) Workload {
+		req, resp := shapesReqResp(shape, []int{16385, 16385})
+		wl := StdWorkload("r1", 1, shape, req, resp)
+		if shape == "Bidi" {
+			// ping-pong so that both sides block in Recv at some point
+			wl.Call.Ops = []COp{{K: "new"}, {K: "send", Size: 16385}, {K: "recv"}, {K: "send", Size: 16385}, {K: "closesend"}, {K: "recvall"}}
+			wl.Handler.Ops = []HOp{{K: "recv"}, {K: "send", Size: 16385}, {K: "recv"}, {K: "recv"}, {K: "send", Size: 16385}, {K: "return"}}
+		}
+		return wl
+	}
+	for _, cfg := range []TunCfg{{}, {ServerNoFC: true}, {Reverse: true}, {Reverse: true, ServerNoFC: true}} {
+		faults := []string{"cancel:r1", "openctx", "break", "deadline", "hdeadline"}
+		if cfg.Reverse {
+			faults = append(faults, "stop", "chclose")
+		} else {
+			faults = append(faults, "chclose")
+		}
+		for _, shape := range []string{"Bidi", "ClientStream"} {
+			for _, fault := range faults {
+				cfg, shape, fault := cfg, shape, fault
+				wl := mk(shape)
+				opt := Options{Level: "io", Bound: bound, DevOK: dev}
+				switch fault {
+				case "deadline":
+					wl.Call.Timeout = 1500 * time.Millisecond
+					opt.Horizon = 2
+				case "hdeadline":
+					wl.Call.MD = metadata.Pairs("grpc-timeout", "1500m")
+					opt.Horizon = 2
+				case "break":
+					cfg.WithBreak = true
+				}
+				scs = append(scs, &Scenario{
+					Name: fmt.Sprintf("c01/m3/%s/%s/%s", cfg, shape, fault), Prop: "C01",
+					Desc: fmt.Sprintf("%s RPC (two 16385-byte messages each way) over a %s tunnel; cause %q strikes at every quiescent point of the run (bound %d)", shape, cfg, fault, bound),
+					Opt:  opt,
+					Run: func(w *World) {
+						t := w.OpenTunnel(cfg)
+						if t.StartErr != nil {
+							return
+						}
+						if fault != "deadline" && fault != "hdeadline" && fault != "break" {
+							w.StartFault(t, fault)
+						}
+						w.Join(w.StartCallers(t, []Workload{wl})...)
+						t.Close()
+					},
+					Check: func(w *World, x *Exec) []Violation {
+						vs := NoHang(x, "C01")
+						vs = append(vs, msgOracle(w, "C01", []string{"r1"})...)
+						return vs
+					},
+				})
+			}
+		}
+	}
+	return scs
+}
+
+// M4: fine-grained schedules (every lock, atomic, condition and channel operation inside
+// the framing / flow-control functions) of one bidi stream.
+func c01M4(tier string) []*Scenario {
+	var scs []*Scenario
+	bound := 2
+	if tier == "thorough" {
+		bound = 3
+	}
+	focus := []string{"send", "accept", "dequeue", "close", "cancel", "readMsgLocked", "readMsg", "acceptClientFrame", "acceptServerFrame",
+		"finishStream", "halfClose", "handleClosure", "updateWindow", "RecvMsg", "SendMsg"}
+	for _, cfg := range []TunCfg{{}, {ServerNoFC: true}} {
+		cfg := cfg
+		wl := StdWorkload("r1", 1, "Bidi", []int{16385, 3}, []int{16385, 3})
+		scs = append(scs, &Scenario{
+			Name: fmt.Sprintf("c01/m4/%s/Bidi", cfg), Prop: "C01",
+			Desc: fmt.Sprintf("one Bidi RPC [16385,3] each way over a %s tunnel; every synchronisation operation inside the framing and flow-control functions is a scheduling point; all schedules with <= %d deviations", cfg, bound),
+			Opt:  Options{Level: "focus", Focus: focus, Bound: bound},
+			Run:  func(w *World) { RunWorkloads(w, cfg, []Workload{wl}) },
+			Check: func(w *World, x *Exec) []Violation {
+				vs := NoHang(x, "C01")
+				vs = append(vs, msgOracle(w, "C01", []string{"r1"})...)
+				vs = append(vs, completeOK(w, "C01", wl)...)
+				return vs
+			},
+		})
 	}
 	return scs
 }
